@@ -276,6 +276,11 @@ def step' (s : Sim) (ws : List String) : Sim × String :=
       (s, if Spec.settledOk a b (c != 0) && Spec.settledOk d e (f != 0) &&
              o == base + (if c != 0 then 0 else b) + (if f != 0 then 0 else e) then "ok" else "violated")
     | _, _, _, _, _, _, _, _ => (s, "bad-op")
+  -- a waiter whose context became done must come back with the dead wire of its context
+  | ["!race-latectx", _] => (s, "returned ctxdead:deadline")
+  -- idle cleanup racing with Store: `Rv.C24.returned_or_closed` (no wire lost), idle wires are
+  -- not closed while the pool is up, `bounded`, `settled`
+  | "!race-cleanup" :: _ => (s, "lost=0 idleclosed=0 over=0 size-idle=0")
   | ["!race-cancel", _] => (s, "stuck=0")
   | ["!race-store", _] => (s, "stuck=0 wrong=0")
   -- ---------------- source shape of Acquire (race suite) ----------------
